@@ -47,11 +47,11 @@ class Check:
             {"rule": rule, "instance": instance, "key": f"{self.pid}:{rule}:{instance}", "msg": msg, "where": where, "kind": kind}
         )
 
-    def require(self, cond, rule, instance, msg, where="", detail="", nontrivial=True):
+    def require(self, cond, rule, instance, msg, where="", detail="", nontrivial=True, kind_hint="violation"):
         if cond:
             self.ok(rule, instance, detail, nontrivial)
         else:
-            self.fail(rule, instance, msg, where)
+            self.fail(rule, instance, msg, where, kind=kind_hint)
         return bool(cond)
 
     def floor(self, name, measured, floor):
